@@ -254,6 +254,9 @@ pub fn c02(o: &Opts) -> i32 {
     for k in 0..if q { 14 } else { 120 } { let p = gen::ep_rich_sparse(&mut r); units.insert(2 + k.min(units.len() - 2), Unit::Walk { root: p, depth: 5, passes: 2, label: "en-passant-rich sparse set-up (depth 5)".into() }); }
     for k in 0..if q { 6 } else { 40 } { units.push(Unit::Games { seed: o.seed.wrapping_mul(1000).wrapping_add(k), n: if q { 6 } else { 20 } }); }
     for &i in idx.iter().take(if q { 6 } else { 40 }) { units.push(Unit::AfterSearch { root: corpus[i].0.clone() }); }
+    // very wide positions (more than 64 moves: several queens), queried twice on the same generator
+    for (p, t) in corpus.iter() { if p.legal_moves().len() > 64 { units.insert(1, Unit::Walk { root: p.clone(), depth: 1, passes: 3, label: format!("{} (wide)", t) }); } }
+    for _ in 0..if q { 3 } else { 30 } { let p = gen::random_setup_profile(&mut r, 4); if p.legal_moves().len() > 64 { units.insert(1, Unit::Walk { root: p, depth: 1, passes: 3, label: "material-extreme set-up (wide)".into() }); } }
     // return trips from every corpus position that has castling rights or an ep target, and from castle-focused set-ups
     let mut rich: Vec<Pos> = corpus.iter().map(|x| x.0.clone()).filter(|p| p.rights != 0 || p.ep.is_some()).collect();
     for _ in 0..if q { 120 } else { 1500 } { let prof = *r.pick(&[5usize, 5, 1]); let p = gen::random_setup_profile(&mut r, prof); if p.rights != 0 || p.ep.is_some() { rich.push(p); } }
